@@ -27,6 +27,7 @@ RULE = (
     "comparison. Non-trivial: >= 1 duplicate pair, a rejected row between two occurrences of a key, or a distinct "
     "count within 1 of the threshold; enumerated sequences are distinct by construction."
     "Every table is read once more with a validation limit (rows behind it reach no check; the end verdict is predicted from the rows in front of it). Field names may differ only in case."
+    "The checks may be added to the CID after the reader was created."
 )
 ASSUMPTIONS = [
     "the generated CIDs have at most one IsUnique check, so 'accepted' and 'registered' coincide there (DistinctCount "
